@@ -14,6 +14,7 @@ var Registry = map[string]func() int{
 	"C10": C10,
 	"C11": C11,
 	"C06": C06,
+	"C07": C07,
 }
 
 func IDs() []string {
